@@ -219,8 +219,14 @@ def Res.rebuild (r : Res) (rule : Rule) (now : Nat) (reuseStat : Bool) : Res :=
              (p.1, { state := .closed, nextRetry := 0, curProbe := 0,
                      stat := if reuseStat then p.2.stat else LA.mk rule.cb.n rule.cb.L now }) }
 
+/-- `Retryer.onDisconnected(a)`: the active check failed.  It bumps the retry counter and re-arms its timer; neither
+    the node breakers nor the recycler are touched. -/
+def Res.retryFail (r : Res) (_a : String) : Res := r
+
 /-- `LoadRuleOfResource(res, nil)` / `ClearRuleOfResource`: the resource's rule and all its node breakers are
-    dropped; the cached recycler (and its status map) stays. -/
+    dropped; the cached recycler (and its status map) stays.  The same happens to a resource
+    that a bulk `LoadRules` leaves without a (valid) rule: `updateAllBreakers` rebuilds node breakers only for resources that
+    still have one. -/
 def Res.clear (r : Res) : Res := { r with nodes := [] }
 
 end Sentinel.Outlier
